@@ -239,6 +239,39 @@ func init() {
 		})
 	}
 
+	// L5: a listener registered long ago (id 1) and a late registration whose id falls into the same bucket of the
+	// listener map (id 17: sixteen registrations later) racing with close. The late registration adds and, seeing the
+	// closed flag, removes its entry while notifyClosed walks the map.
+	vexp.Register(&vexp.Scenario{
+		Name: "c20.L5.old-listener-vs-late-registration-vs-close", Prop: "C20", Bounds: c20Bounds, Fine: true,
+		Configs: func(thorough bool) []map[string]int {
+			return []map[string]int{{"seq": 16}, {"seq": 1}, {"seq": 32}}
+		},
+		Doc: "conn: listener1 registered (id 1); the id sequence is advanced to `seq` (earlier listeners came and went); then OnClosed(listener2) || conn.close(): listener1 must be called exactly once whatever the late registration does; the map's atomics are decision points (fine mode)",
+		Body: func(x *vexp.Ctx) {
+			s := newSeam(x, false, HandleFunc(func(ctx Context, ch Channel) status.Status { return status.OK }))
+			l1, f1 := mkListener(s, "listener1")
+			l2, f2 := mkListener(s, "listener2")
+			_, l1.ok = s.c.OnClosed(f1)
+			l1.registered = true
+			s.c.closedListenerSeq.Store(int64(x.P("seq", 16)))
+			closeDone, r2Done := false, false
+			vsched.GoNamed("registrar2", func() {
+				_, l2.ok = s.c.OnClosed(f2)
+				l2.registered = true
+				r2Done = true
+			})
+			vsched.GoNamed("closer", func() {
+				s.c.close()
+				closeDone = true
+			})
+			joinAll("join", &r2Done, &closeDone)
+			l1.check(x, closeDone)
+			l2.check(x, closeDone)
+			x.Outcome = fmt.Sprintf("ok=%v/%v calls=%d/%d", l1.ok, l2.ok, l1.calls, l2.calls)
+		},
+	})
+
 	// H1..H4: each accepted open is handed to the handler exactly once; its context is cancelled exactly when the
 	// channel ends or the connection is lost.
 	type hcase struct {
